@@ -495,7 +495,10 @@ func evaluate(c Case) (r result) {
 	}
 
 	// ---- path 2 (sampled): Server.Check ----
-	if c.E2E {
+	// (the API limits a condition expression to 512 bytes; longer ones only take the direct path)
+	if c.E2E && len(e2eModel(c).Conds) > 0 && len(e2eModel(c).Conds[0].Expr.CEL()) > 512 {
+		r.classes = append(r.classes, "e2e:skipped-expression-longer-than-api-limit")
+	} else if c.E2E {
 		// A stored tuple whose context does not fit the condition's declared
 		// parameters (undeclared key, unconvertible value) is not a valid tuple of
 		// the model (R-val) and is ignored by queries: the answer is then "no".
